@@ -1,6 +1,7 @@
 package c07comb
 
 import (
+	"math"
 	"context"
 	"fmt"
 	"reflect"
@@ -74,7 +75,8 @@ func genInput(t *rapid.T, label string, maxLen int) []int {
 }
 
 func genParam(t *rapid.T, label string, n int, min int) int {
-	cands := []int{0, 1, n - 1, n, n + 1, rapid.IntRange(0, 12).Draw(t, label+"rnd"), -1, -3}
+	// (the huge values stand for "no limit": everything in one chunk, the first / last "all of them")
+	cands := []int{0, 1, n - 1, n, n + 1, rapid.IntRange(0, 12).Draw(t, label+"rnd"), -1, -3, math.MaxInt, math.MaxInt - 2, 1 << 62}
 	v := rapid.SampledFrom(cands).Draw(t, label)
 	if v < min {
 		v = min
